@@ -112,8 +112,9 @@ func (d *Document) BlockStringValueContentBytes(ref int) []byte {
 		}
 	}
 
-	// join the lines to keep and return the result
-	return bytes.Join(lines[firstLine:lastLine+1], []byte{'\n'})
+	// join the lines to keep; the only escape sequence of a block string is \""", which stands for """
+	value := bytes.Join(lines[firstLine:lastLine+1], []byte{'\n'})
+	return bytes.ReplaceAll(value, []byte(`\"""`), []byte(`"""`))
 }
 
 func (d *Document) BlockStringValueContentString(ref int) string {
